@@ -391,7 +391,7 @@ def rule_evalstate(repo: Repo, rid: str = "C07.evalstate") -> RuleResult:
 
 def rules(repo: Repo, tier: str) -> List[RuleResult]:
     from . import c14, c19
-    return [rule_write(repo), rule_global(repo), rule_escape(repo), c14.rule_copy(repo, "C07.copyfresh"), c19.rule_cache(repo, "C07.cache"), _c20().rule_freshleaf(repo, "C07.freshleaf"),
+    return [rule_write(repo), rule_global(repo), rule_escape(repo), c14.rule_copy(repo, "C07.copyfresh"), c19.rule_cache(repo, "C07.cache", manual=True, objects=True), _c20().rule_freshleaf(repo, "C07.freshleaf"),
             rule_evalstate(repo)]
 
 
